@@ -50,14 +50,29 @@ def measure_traces(shards):
 
 
 def history_check(prop, tier, seed, build_workloads, module="TraceLibrary", cfg=None, flavour="plain",
-                  assumptions=(), rule="", watchdog=10, extra_cov=None, level=None):
+                  assumptions=(), rule="", watchdog=10, extra_cov=None, level=None, driver="libdriver", also=()):
     t0 = time.time()
     wd = vlib.workdir("%s_%s" % (prop, tier))
-    binary = vbuild.build_bin("libdriver", flavour, extra_src=["shim.cpp"])
+    binary = vbuild.build_bin(driver, flavour, extra_src=["shim.cpp"])
     mc_stats = []
     workloads = build_workloads(wd, mc_stats)
     cfg = cfg or vlib.trace_cfg()
     shards, summary = libcheck.run_and_validate(binary, workloads, wd, module=module, cfg=cfg, watchdog=watchdog)
+    for sh in shards:
+        sh.update(_bin=binary, _module=module, _cfg=cfg)
+    # further pipelines (another driver / trace specification) judged under the same property
+    for k, extra in enumerate(also):
+        wd2 = os.path.join(wd, "also%d" % k)
+        os.makedirs(wd2, exist_ok=True)
+        bin2 = vbuild.build_bin(extra["driver"], flavour, extra_src=["shim.cpp"])
+        w2 = extra["build"](wd2, mc_stats)
+        sh2, sum2 = libcheck.run_and_validate(bin2, w2, wd2, module=extra["module"], cfg=extra["cfg"], watchdog=watchdog)
+        for sh in sh2:
+            sh.update(_bin=bin2, _module=extra["module"], _cfg=extra["cfg"])
+        shards += sh2
+        workloads = workloads + w2
+        for key in summary:
+            summary[key] = round(summary[key] + sum2[key], 1) if isinstance(summary[key], float) else summary[key] + sum2[key]
     known = [k for k in vlib.load_known_findings() if k["property"] == prop]
     known_by_kf = {k["kf"]: k for k in known if "kf" in k}
     violations = []
@@ -73,7 +88,7 @@ def history_check(prop, tier, seed, build_workloads, module="TraceLibrary", cfg=
             if len(violations) >= MAX_REPORTED:
                 unconfirmed += 1
                 continue
-            payload = libcheck.confirm_rejection(binary, sh, rej, wd, nrep, module, cfg, watchdog=watchdog)
+            payload = libcheck.confirm_rejection(sh["_bin"], sh, rej, wd, nrep, sh["_module"], sh["_cfg"], watchdog=watchdog)
             if payload is None:
                 log("note: rejection in %s did not repeat on re-run; not reported" % sh["base"])
                 continue
@@ -85,7 +100,7 @@ def history_check(prop, tier, seed, build_workloads, module="TraceLibrary", cfg=
                 continue
             # the execution in which the process died / hung: replay it alone
             rej = {"exec_index": max(ev["exec"] - 1, 0)}
-            payload = libcheck.confirm_rejection(binary, sh, rej, wd, nrep, module, cfg, watchdog=watchdog)
+            payload = libcheck.confirm_rejection(sh["_bin"], sh, rej, wd, nrep, sh["_module"], sh["_cfg"], watchdog=watchdog)
             if payload is None:
                 log("note: %s in %s did not repeat on re-run; not reported" % (ev["kind"], sh["base"]))
                 continue
@@ -126,7 +141,7 @@ def history_check(prop, tier, seed, build_workloads, module="TraceLibrary", cfg=
            "trace_states_checked_by_tlc": summary["tlc_states"],
            "schemas": sorted({w.schema for w in workloads}, key=vlib.ALL.index),
            "model_instances": mc_stats, "samples": samples,
-           "checker_cmd": "tlc MCForest.tla (generation + model properties); tlc %s.tla (trace validation, POSTCONDITION Accepted)" % module,
+           "checker_cmd": "tlc MC*.tla (generation + model properties); tlc %s.tla (trace validation, POSTCONDITION Accepted)" % module,
            "drive_s": summary["drive_s"], "validate_s": summary["validate_s"],
            "rule": nt_rule + rule, "known_findings_seen": sorted(kf_seen),
            "exhaustive": True}
@@ -430,6 +445,29 @@ def check_C10(tier, seed):
                                flags={"reopen": True}, origin=st["instance"]))
             ws.append(Workload(s, sc2 if len(sc2) <= n2 else r.sample(sc2, n2), ["a", "d"], mode="disk",
                                flags={"reopen": True}, origin=st2["instance"]))
+            # whole sessions: many calls on ONE connection, closing only at chosen prefixes and at the end
+            # (a reopen after every call would hide state that a long-lived connection accumulates)
+            both = [list(x) + [{"op": "reopen"}] for x in r.sample(sc + sc2, min(len(sc + sc2), n1))]
+            ws.append(Workload(s, both, libcheck.NAMES4 + ["d"], mode="disk", tag="e", origin=st["instance"]))
+        # (R) random long histories with a reopen at two seed-chosen prefixes and at the end
+        nr, rdepth = (25, 40) if tier == "quick" else (150, 60)
+        rcache = {}
+        for s in schemas:
+            fam = vlib.family(s)
+            if fam not in rcache:
+                a = vlib.sim_forest(wd, fam, 6, rdepth, seed, num=200, limit=2000, max_tracks=12, with_tracks=True,
+                                    crate_ops="all", pre="rich", track_ops="all", opnames=("a", "b", "c"))
+                rcache[fam] = a
+                mc_stats.append(a[0])
+            st, sc = rcache[fam]
+            r = random.Random(seed * 6151 + vlib.ALL.index(s))
+            picked = []
+            for x in r.sample(sc, min(nr, len(sc))):
+                x = list(x)
+                for pos in sorted(r.sample(range(14, len(x)), 2), reverse=True):
+                    x.insert(pos, {"op": "reopen"})
+                picked.append(x + [{"op": "reopen"}])
+            ws.append(Workload(s, picked, ["a", "b", "c", "d"], mode="disk", tag="r", origin=st["instance"]))
         return ws
 
     return history_check(
@@ -502,3 +540,9 @@ def check_C14(tier, seed):
 
 
 from purechecks import check_C19, check_C20, check_C13  # noqa: E402,F401
+from verifycheck import check_C17  # noqa: E402,F401
+from formatchecks import check_C02, check_C03, check_C04  # noqa: E402,F401
+
+from trackchecks import check_C01, check_C06  # noqa: E402,F401
+from decodercheck import check_C05  # noqa: E402,F401
+from tablecheck import check_C18  # noqa: E402,F401
